@@ -286,6 +286,18 @@ def rule_clear(fx, rep):
         cn = norm(callee_name(t) or "")
         if (cn.endswith("slice::fill") or cn.endswith("Vec::clear")) and rs.must_pass(0, [bb], rs.return_blocks()):
             good = good or cn.endswith("slice::fill")
+    # `for slot in &mut self.data { *slot = None }`: a store of None through the item of a plain mutable iteration over the whole vector
+    for bb, j, st in rs.stmts():
+        rv = st.get("rv")
+        is_none = bool(rv) and ((rv["k"] == "agg" and rv.get("variant") == "None") or
+                                (rv["k"] == "use" and str((strip_refs(rs.expr(rv["op"], expand_named=True, at=bb)) or ("",) * 2)[1]).endswith("Option::None")))
+        if st["k"] == "assign" and st["lhs"].get("p") == ["*"] and is_none:
+            it = rs.expr({"l": st["lhs"]["l"], "p": []}, expand_named=True, at=bb)
+            calls_in = [x[1] for x in walk(it) if isinstance(x, tuple) and x and x[0] == "call" and isinstance(x[1], str)]
+            plain = all(c.endswith("Iterator>::next") or c.endswith("IntoIterator>::into_iter") or c.endswith("iter_mut") or c.endswith("DerefMut>::deref_mut") for c in calls_in)
+            over_data = any(isinstance(x, tuple) and len(x) == 3 and x[0] == "field" and x[2] == "data" and deep_strip(x[1])[:2] == ("arg", 1) for x in walk(it))
+            if calls_in and plain and over_data and any(c.endswith("Iterator>::next") for c in calls_in):
+                good = True
     rep.obligation(good)
     if not good:
         bad("reset/slots", "reset does not assign None to every slot 0..data.len()", rs)
